@@ -26,6 +26,10 @@ def run(ctx):
     cache(ctx)
     c01.clause_recs_for(ctx, ["LinearFourRates"])
     c01.lfr_cadence(ctx)
+    steps(ctx)
+    decision(ctx)
+    cache_complete(ctx)
+    lifecycle(ctx)
 
 
 def _static(ctx, name, **kw):
@@ -160,6 +164,10 @@ def statistic(ctx):
     ctx.ob("FRM", "LinearFourRates.update", "R <- eta*R + (1-eta)*[y_true == y_pred]", okf, msg, e)
     fa = fv.single_atom()
     okp = fa is not None and fa[0] == "sub" and c01._rooted(_strip_sub(fv), "_r_stat")
+    if okp:
+        inner = fa[1].single_atom()
+        ssr0 = A("_samples_since_reset")
+        okp = inner is not None and inner[0] == "sub" and (T.same(inner[2], ssr0) or T.same(inner[2], ssr0 + const(1))) and fa[2] == idx[1]
     ctx.ob("FRM", "LinearFourRates.update", "otherwise the previous value is kept", okp, q.short(fv, 120), e)
 
 
@@ -211,6 +219,7 @@ def montecarlo(ctx):
     ap = [e for e in tr.calls() if e.callee[0] == "mcall" and e.callee[1] == "apply"]
     okw = len(ap) == 1 and dict(ap[0].kwargs).get("args") is not None and dict(ap[0].kwargs)["args"] == atom(("tuple", (eta, P("est_rate"), N)))
     ctx.ob("FWD", "LinearFourRates._sim_bounds", "the simulation receives (eta, est_rate, denom)", okw, "")
+    ctx.ob("FWD", "LinearFourRates._sim_bounds", "one statistic per simulated column (axis=0)", len(ap) == 1 and dict(ap[0].kwargs).get("axis", const(0)) == const(0), "")
     # percentile levels
     ret = tr.retval
     lv = {"lb_warn": A("warning_level") * const(100), "ub_warn": const(100) - A("warning_level") * const(100),
@@ -313,3 +322,199 @@ def _two_keys(l):
         return False
     b = a[1].single_atom()
     return b is not None and b[0] == "sub" and b[2] == P("r_est_rate") and b[1] == A("_bounds")
+
+
+# ---------------------------------------------------------------------------
+# per-step tables, decision chain, cache completeness, lifecycle
+
+U = "LinearFourRates.update"
+
+
+def _upd(ctx):
+    return ctx.trace("LinearFourRates", "update", assume={"_drift_state": None, "parallelize": False}, nonnull=NN)
+
+
+def _dict_items(t):
+    """items of a dict display term, seeing through the one-element argument tuple of dict.update(...)"""
+    a = t.single_atom() if t is not None else None
+    if a is not None and a[0] == "tuple" and len(a[1]) == 1:
+        a = a[1][0].single_atom()
+    if a is not None and a[0] == "dict":
+        return list(a[1])
+    return None
+
+
+def _all_false(t):
+    it = _dict_items(t)
+    return it is not None and {T.const_py(k) if T.is_pure_const(k) else None for k, _v in it} == set(RATES) and all(v == T.FALSE for _k, v in it)
+
+
+def steps(ctx):
+    tr = _upd(ctx)
+    ssr0 = A("_samples_since_reset")
+    ssr = ssr0 + const(1)
+    lp = [e for e in tr.of("loop") if e.func.qualname == U]
+    first_call = [e for e in tr.calls() if e.callee[0] == "closure" and e.callee[1].endswith("_calculate_rate_bounds")]
+    barrier = min([e.seq for e in lp + first_call] or [10 ** 9])
+    for attr, kind in (("_r_stat", "copy"), ("_p_table", "copy"), ("_warning_states", "false"), ("_alarm_states", "false")):
+        mu = [e for e in tr.mutations(attr) if e.how == "method:update" and e.func.qualname == U]
+        ok = len(mu) == 1
+        why = "found %d dict.update calls" % len(mu)
+        if ok:
+            it = _dict_items(mu[0].value)
+            ok = it is not None and len(it) == 1 and T.same(it[0][0], ssr)
+            why = "key %s" % (q.short(it[0][0], 60) if it else None)
+            if ok and kind == "copy":
+                want = atom(("mcall", q.sub(A(attr), ssr0), "copy", (), ()))
+                ok = it[0][1] == want
+                why = "entry %s ; documented: a copy of the previous step's entry %s" % (q.short(it[0][1], 80), q.short(want, 80))
+            elif ok:
+                ok = _all_false(it[0][1])
+                why = "entry %s" % q.short(it[0][1], 100)
+            ok = ok and mu[0].seq < barrier
+        ctx.ob("IDX-step", U, "%s gets its entry for the current step before the rates are processed (%s)" % (attr, "copy of the previous step" if kind == "copy" else "all flags False"), ok, why, mu[0] if mu else None)
+    # rate table and denominators written by the per-rate step
+    rets = [x.d.get("value") for x in tr.events if x.kind == "exit" and x.d.get("fi") is not None and x.fi.name == "_get_four_rates"]
+    pm = [e for e in tr.mutations("_p_table") if e.how == "setitem"]
+    ctx.ob("ROLE", U, "the rate table is updated per rate", len(pm) == 1 and len(rets) == 2, "")
+    rate = None
+    if len(pm) == 1 and len(rets) == 2:
+        e = pm[0]
+        ok = len(e.path) == 2 and T.same(e.path[0][1], ssr)
+        rate = e.path[1][1] if len(e.path) == 2 else None
+        ctx.ob("IDX-step", U, "the rate is stored at the current step", ok, "", e)
+        ctx.ob("FRM", U, "the stored rate is the rate of the incremented matrix for the same key", rate is not None and e.value == q.sub(rets[1], rate),
+               q.short(e.value, 100), e)
+    dm = [e for e in tr.mutations("_denominators") if e.how == "setitem"]
+    dret = [x.d.get("value") for x in tr.events if x.kind == "exit" and x.d.get("fi") is not None and x.fi.name == "_get_four_denominators"]
+    ctx.ob("ROLE", U, "the denominator is refreshed per rate", len(dm) == 1 and len(dret) >= 1, "")
+    cs = q.find_calls(tr, "LinearFourRates._update_bounds_dict")
+    if len(dm) == 1 and dret and rate is not None:
+        e = dm[0]
+        key = e.path[0][1] if len(e.path) == 1 else None
+        okk = key is not None and T.same(key - rate, const("_N")) if key is not None else False
+        ctx.ob("AGREE-denom", U, "the denominator is stored under <rate>_N", okk, q.short(key, 60) if key is not None else "", e)
+        ctx.ob("AGREE-denom", U, "and is the denominator of the same rate in the incremented matrix", key is not None and e.value == q.sub(dret[0], key), q.short(e.value, 100), e)
+        dc = [x for x in tr.calls() if x.callee == ("static", "LinearFourRates._get_four_denominators")]
+        ctx.ob("FWD", U, "denominators are computed from the incremented matrix", bool(dc) and all(T.mentions(x.args[0], lambda z: z[0] == "mutated") for x in dc), "")
+        if len(cs) == 1 and len(cs[0].args) == 4:
+            a = cs[0].args
+            ctx.ob("FWD", U, "the bounds are requested for this rate's current estimate", a[0] == q.sub(rets[1], rate), q.short(a[0], 100), cs[0])
+            ctx.ob("FWD", U, "and this rate's current denominator", a[1] == e.value, q.short(a[1], 100), cs[0])
+    # the two rate snapshots bracket the increment
+    mu = [e for e in tr.mutations("_confusion")]
+    fr = [x for x in tr.calls() if x.callee == ("static", "LinearFourRates._get_four_rates")]
+    if mu and len(fr) == 2:
+        ctx.ob("ORD", U, "rates are taken once before and once after the increment", fr[0].seq < mu[0].seq < fr[1].seq and fr[0].args[0] == A("_confusion"), "", mu[0])
+        from . import c16
+        ext, _v = c16.extracted_labels(ctx, tr, U)
+        path = [p[1] for p in mu[0].path if p[0] == "item"]
+        ok = len(path) == 2 and {q.short(p, 200) for p in path} == {q.short(ext["y_true"], 200), q.short(ext["y_pred"], 200)}
+        ctx.ob("FWD-label", U, "the cell incremented is indexed by the validated label and prediction themselves (element 0 of each)", ok,
+               "indices %s" % ", ".join(q.short(p, 60) for p in path), mu[0])
+
+
+def decision(ctx):
+    tr = _upd(ctx)
+    ssr = A("_samples_since_reset") + const(1)
+    def anyof(attr):
+        out = []
+        for base in (A(attr), atom(("loopvar", "LinearFourRates.update#L1", attr))):
+            out.append(atom(("call", "any", (atom(("mcall", q.sub(base, ssr), "values", (), ())),), ())))
+        return out
+    def has(e, cands, neg=False):
+        return any(q.has_guard(e, T.mk_not(c) if neg else c) for c in cands)
+    al, wa = anyof("_alarm_states"), anyof("_warning_states")
+    st = [e for e in tr.stores("_drift_state") if q.stack_has(e, U)]
+    by = {}
+    for e in st:
+        by.setdefault(q.short(e.value, 20), []).append(e)
+    for val, conds, what in (("'drift'", ((al, False),), "drift exactly when some tracked rate's alarm flag of this step is set"),
+                             ("'warning'", ((al, True), (wa, False)), "warning exactly when no alarm flag but some warning flag of this step is set"),
+                             ("None", ((al, True), (wa, True)), "None exactly when no flag of this step is set")):
+        evs = by.get(val, [])
+        ctx.ob("ROLE", U, "store of %s exists" % val, len(evs) == 1, "found %d" % len(evs))
+        for e in evs:
+            se = c01._site_pc_ev(tr, e)
+            ok = all(has(se, c, neg) for c, neg in conds) and len(guards(se)) == len(conds)
+            ctx.ob("GRD-chain", U, what, ok, "guards: %s" % "; ".join(q.short(g, 90) for g in guards(se)), se)
+            # the public log gets the same value on the same path
+            lg = [m for m in tr.mutations("all_drift_states") if m.how == "method:append" and set(map(id, m.pc)) == set(map(id, se.pc))]
+            okl = len(lg) == 1 and (_dict_items(lg[0].value) is None) and lg[0].value == atom(("tuple", (e.value,)))
+            ctx.ob("PAIR", U, "all_drift_states records the state stored (%s)" % val, okl, "", se)
+
+
+def cache_complete(ctx):
+    ts = _static(ctx, "_update_bounds_dict")
+    sims = q.find_calls(ts, "LinearFourRates._sim_bounds")
+    # every leaf of the result is a cache entry under both keys or the value of a simulation on that path
+    bad = []
+    for conds, l in q.ite_leaves(ts.retval):
+        a = l.single_atom()
+        if a is not None and a[0] == "undef":
+            bad.append("unassigned on the path %s" % "; ".join(q.short(c, 40) for c in conds))
+        elif not (_two_keys(l) or T.mentions(l, lambda z: z[0] in ("mcall", "call", "dict") or z == ("param", "est_rate"))):
+            bad.append(q.short(l, 60))
+    ctx.ob("AGREE-cache", "LinearFourRates._update_bounds_dict", "every path returns a cached entry or a fresh simulation", not bad and len(sims) == 2, "; ".join(bad[:2]))
+    in_rate = atom(("in", P("r_est_rate"), A("_bounds")))
+    in_den = atom(("in", P("r_curr_denom"), q.sub(A("_bounds"), P("r_est_rate"))))
+    for conds, l in q.ite_leaves(ts.retval):
+        if _two_keys(l):
+            ctx.ob("GRD", "LinearFourRates._update_bounds_dict", "a cached entry is read only when both keys are present", in_rate in conds and in_den in conds,
+                   "conditions: %s" % "; ".join(q.short(c_, 60) for c_ in conds))
+    for e in sims:
+        gs = guards(e)
+        ok = (T.mk_not(in_rate) in gs) or (in_rate in gs and T.mk_not(in_den) in gs)
+        ctx.ob("GRD", "LinearFourRates._update_bounds_dict", "a simulation is run exactly when a key is missing", ok, "guards: %s" % "; ".join(q.short(g, 60) for g in gs), e)
+    # each miss path stores what it simulated under the rounded denominator, and the per-rate dictionary under the rounded rate
+    for e in sims:
+        after = [x for x in ts.events[e.seq:] if x.kind in ("mutate", "localmut", "local") and len(x.pc) >= len(e.pc) and x.pc[: len(e.pc)] == e.pc]
+        k_denom = any((x.kind in ("localmut", "mutate") and any(p[1] == P("r_curr_denom") for p in x.path)) or
+                      (x.kind == "local" and _dict_items(x.value) and any(k == P("r_curr_denom") for k, _v in _dict_items(x.value))) for x in after)
+        k_rate = any(x.kind == "mutate" and x.attr == "_bounds" and any(p[1] == P("r_est_rate") for p in x.path) for x in after) or \
+            any(x.kind == "localmut" and any(p[1] == P("r_curr_denom") for p in x.path) and _from_bounds(x.old) for x in after if isinstance(x.d.get("old"), T.R))
+        ctx.ob("AGREE-cache", "LinearFourRates._update_bounds_dict", "a simulated result is stored under the rounded denominator on its path", k_denom, "", e)
+        ctx.ob("AGREE-cache", "LinearFourRates._update_bounds_dict", "and reachable from the cache under the rounded rate", k_rate, "", e)
+    # membership tests use the same keys as the lookups
+    tests = [e for e in ts.of("test")]
+    keys = []
+    for e in tests:
+        for a in T.walk(e.cond):
+            if a[0] in ("in", "notin"):
+                keys.append(a[1])
+    ctx.ob("AGREE-cache", "LinearFourRates._update_bounds_dict", "cache membership is tested with the rounded rate, then the rounded denominator",
+           keys[:2] == [P("r_est_rate"), P("r_curr_denom")], "tested keys: %s" % ", ".join(q.short(k, 30) for k in keys))
+
+
+def _from_bounds(t):
+    """t denotes (an entry of) the cache attribute itself, so that mutating it in place changes the cache"""
+    a = t.single_atom()
+    while a is not None:
+        if a == ("attr", "_bounds"):
+            return True
+        if a[0] in ("sub", "setitem", "mutated"):
+            a = a[1].single_atom()
+            continue
+        return False
+    return False
+
+
+def lifecycle(ctx):
+    from . import common
+    common.lifecycle(ctx, ["LinearFourRates"], recs=["LinearFourRates"], clean_slate=False)
+    f4 = atom(("dict", tuple((const(r), T.FALSE) for r in RATES)))
+    for m in ("__init__", "reset"):
+        tr = ctx.trace("LinearFourRates", m)
+        at = tr.final.attrs if tr.final is not None else {}
+        for attr in ("_warning_states", "_alarm_states"):
+            v = at.get(attr)
+            it = _dict_items(v) if v is not None else None
+            ok = it is not None and len(it) == 1 and it[0][0] == const(0) and _all_false(it[0][1])
+            ctx.ob("FRM-init", "LinearFourRates." + m, "%s starts as {0: all False}" % attr, ok, q.short(v, 100) if v is not None else "unset")
+        r, p = at.get("_r_stat"), at.get("_p_table")
+        ok = r is not None and p is not None and r == atom(("mcall", p, "copy", (), ()))
+        ctx.ob("FRM-init", "LinearFourRates." + m, "the statistic table starts as a copy of the rate table (0.5 everywhere)", ok, q.short(r, 100) if r is not None else "unset")
+    ti = ctx.trace("LinearFourRates", "__init__")
+    at = ti.final.attrs if ti.final is not None else {}
+    ctx.ob("FRM-init", "LinearFourRates.__init__", "the bounds cache starts empty", at.get("_bounds") in (atom(("call", "dict", (), ())), atom(("dict", ()))), q.short(at.get("_bounds"), 60) if at.get("_bounds") is not None else "unset")
+    ctx.ob("FRM-init", "LinearFourRates.__init__", "the state log starts empty", at.get("all_drift_states") == atom(("list", ())), "")
